@@ -710,9 +710,13 @@ impl Mon {
 
 	fn c02_c05(&mut self, fam: &str, b: &[u8], rd: &Reading, text: Option<&str>, rs: &PRes, want: bool) {
 		if !want {
-			// C05 also holds for documents accepted only under lenient options
-			if self.flags.c05 && rd.grammar_ok() && rd.root.is_some() {
+			// C02 and C05 also hold for documents accepted only under lenient options; and a document that
+			// the parser accepts although the reference rejects it (C01's business) still has a content
+			if (self.flags.c05 || self.flags.c02) && rd.grammar_ok() && rd.root.is_some() {
 				let mut results: Vec<(&'static str, PRes)> = Vec::new();
+				if rs.is_ok() {
+					results.push(("parse_slice_with (strict; accepted although the reference rejects the document)", rs.clone()));
+				}
 				for o in Opts::ALL {
 					if o != Opts::STRICT && rd.accepts(o) {
 						results.push(("parse_slice_with(lenient options)", real::parse_slice_with(b, o)));
